@@ -13,6 +13,9 @@ pub enum Kind {
     /// file content as bytes (eligible files always hold a parser-accepted program)
     File(Vec<u8>),
     Dir(Vec<Entry>),
+    /// a symbolic link to a directory that lives outside the tree (materialised only by
+    /// `materialize_with_links`; everywhere else it is an ordinary directory)
+    Link(Vec<Entry>),
 }
 
 #[derive(Clone, Debug)]
@@ -115,7 +118,12 @@ pub fn gen_dir(t: &mut Tape, cfg: &TreeCfg, depth: u32, skipped_undecided: &mut 
             (name, "eligible", Kind::File(program_text(t).into_bytes()))
         } else if roll < 7 && depth < cfg.max_depth {
             let name = t.pick(DIR_NAMES).to_string();
-            (name, "directory", Kind::Dir(gen_dir(t, cfg, depth + 1, skipped_undecided)))
+            let children = gen_dir(t, cfg, depth + 1, skipped_undecided);
+            if t.chance(40) {
+                (name, "directory", Kind::Link(children))
+            } else {
+                (name, "directory", Kind::Dir(children))
+            }
         } else if roll < 8 {
             let name = t.pick(TEST_NAMES).to_string();
             (name, "test-file", Kind::File(inert_content(t)))
@@ -186,9 +194,30 @@ pub fn materialize(entries: &[Entry], at: &Path) {
         let p = at.join(&e.name);
         match &e.kind {
             Kind::File(bytes) => std::fs::write(&p, bytes).expect("write file"),
-            Kind::Dir(children) => {
+            Kind::Dir(children) | Kind::Link(children) => {
                 std::fs::create_dir(&p).expect("create dir");
                 materialize(children, &p);
+            }
+        }
+    }
+}
+
+/// Like `materialize`, but `Kind::Link` entries become symbolic links to directories created under `links`.
+pub fn materialize_with_links(entries: &[Entry], at: &Path, links: &Path) {
+    for e in entries {
+        let p = at.join(&e.name);
+        match &e.kind {
+            Kind::File(bytes) => std::fs::write(&p, bytes).expect("write file"),
+            Kind::Dir(children) => {
+                std::fs::create_dir(&p).expect("create dir");
+                materialize_with_links(children, &p, links);
+            }
+            Kind::Link(children) => {
+                let n = COUNTER.fetch_add(1, Ordering::SeqCst);
+                let target = links.join(format!("t{n}"));
+                std::fs::create_dir_all(&target).expect("create link target");
+                materialize_with_links(children, &target, links);
+                std::os::unix::fs::symlink(&target, &p).expect("symlink");
             }
         }
     }
@@ -204,7 +233,7 @@ pub fn eligible_files(entries: &[Entry], prefix: &str, out: &mut Vec<(String, St
                     out.push((rel, e.name.clone(), String::from_utf8_lossy(bytes).to_string()));
                 }
             }
-            Kind::Dir(children) => eligible_files(children, &rel, out),
+            Kind::Dir(children) | Kind::Link(children) => eligible_files(children, &rel, out),
         }
     }
 }
@@ -222,6 +251,7 @@ pub fn strip_inert(entries: &[Entry]) -> Vec<Entry> {
                 }
             }
             Kind::Dir(c) => Some(Entry { name: e.name.clone(), class: e.class, kind: Kind::Dir(strip_inert(c)) }),
+            Kind::Link(c) => Some(Entry { name: e.name.clone(), class: e.class, kind: Kind::Link(strip_inert(c)) }),
         })
         .collect()
 }
@@ -232,7 +262,7 @@ pub fn count(entries: &[Entry], pred: &dyn Fn(&Entry) -> bool) -> usize {
         .map(|e| {
             (if pred(e) { 1 } else { 0 })
                 + match &e.kind {
-                    Kind::Dir(c) => count(c, pred),
+                    Kind::Dir(c) | Kind::Link(c) => count(c, pred),
                     _ => 0,
                 }
         })
@@ -243,7 +273,7 @@ pub fn depth(entries: &[Entry]) -> usize {
     entries
         .iter()
         .map(|e| match &e.kind {
-            Kind::Dir(c) => 1 + depth(c),
+            Kind::Dir(c) | Kind::Link(c) => 1 + depth(c),
             _ => 0,
         })
         .max()
@@ -260,6 +290,7 @@ pub fn to_json(entries: &[Entry]) -> Value {
                     Err(_) => json!({"name": e.name, "bytes": b}),
                 },
                 Kind::Dir(c) => json!({"name": e.name, "dir": to_json(c)}),
+                Kind::Link(c) => json!({"name": e.name, "dir": to_json(c), "symlink": true}),
             })
             .collect(),
     )
@@ -271,7 +302,11 @@ pub fn from_json(v: &Value) -> Vec<Entry> {
         for e in a {
             let name = e.get("name").and_then(|n| n.as_str()).unwrap_or("x").to_string();
             let kind = if let Some(d) = e.get("dir") {
-                Kind::Dir(from_json(d))
+                if e.get("symlink").and_then(|b| b.as_bool()).unwrap_or(false) {
+                    Kind::Link(from_json(d))
+                } else {
+                    Kind::Dir(from_json(d))
+                }
             } else if let Some(t) = e.get("text").and_then(|t| t.as_str()) {
                 Kind::File(t.as_bytes().to_vec())
             } else {
